@@ -2,6 +2,7 @@ package schema
 
 import (
 	"fmt"
+	"strings"
 
 	"pgregory.net/rapid"
 )
@@ -54,11 +55,20 @@ func RandomManifest(t *rapid.T, root string, o ManifestOpts) *Schema {
 	type planned struct {
 		id   Ident
 		kind string
+		size int    // fixed
+		prim string // typeref
 	}
 	var plan []planned
 	for i := 0; i < n; i++ {
 		kind := rapid.SampledFrom([]string{"record", "record", "record", "record", "enum", "fixed", "typeref", "union"}).Draw(t, "kind")
-		plan = append(plan, planned{newIdent(), kind})
+		pl := planned{id: newIdent(), kind: kind}
+		switch kind {
+		case "fixed":
+			pl.size = rapid.IntRange(1, 16).Draw(t, "size")
+		case "typeref":
+			pl.prim = rapid.SampledFrom(Prims).Draw(t, "trprim")
+		}
+		plan = append(plan, pl)
 	}
 	var recordIDs, anyIDs, leafIDs []Ident
 	for _, p := range plan {
@@ -71,8 +81,10 @@ func RandomManifest(t *rapid.T, root string, o ManifestOpts) *Schema {
 		}
 	}
 	kindOf := map[Ident]string{}
+	planOf := map[Ident]planned{}
 	for _, p := range plan {
 		kindOf[p.id] = p.kind
+		planOf[p.id] = p
 	}
 	var typ func(depth int, self Ident, allowDirectRecord bool) Type
 	typ = func(depth int, self Ident, allowDirectRecord bool) Type {
@@ -97,28 +109,72 @@ func RandomManifest(t *rapid.T, root string, o ManifestOpts) *Schema {
 			return RI(id)
 		}
 	}
-	defaultFor := func(ty Type) *string {
+	// default literals: every primitive incl. extremes and escapes, enums, fixed (one character per byte, code points
+	// up to U+00FF when the field is of the fixed / bytes type itself), typerefs, arrays and maps of those (nested,
+	// empty and non-empty); records and unions get no default (the field becomes optional instead)
+	var lit func(ty Type, depth int) (string, bool)
+	lit = func(ty Type, depth int) (string, bool) {
 		switch {
-		case ty.Prim == "int32" || ty.Prim == "int64":
-			return sp(fmt.Sprint(rapid.IntRange(-9, 9).Draw(t, "di")))
-		case ty.Prim == "float32" || ty.Prim == "float64":
-			return sp("1.5")
+		case ty.Prim == "int32":
+			return rapid.SampledFrom([]string{"0", "7", "-9", "2147483647", "-2147483648"}).Draw(t, "di"), true
+		case ty.Prim == "int64":
+			return rapid.SampledFrom([]string{"0", "7", "-9", "9223372036854775807", "-9223372036854775808", "4294967296"}).Draw(t, "dl"), true
+		case ty.Prim == "float32":
+			return rapid.SampledFrom([]string{"1.5", "0", "-2", "1e10"}).Draw(t, "df"), true
+		case ty.Prim == "float64":
+			return rapid.SampledFrom([]string{"1.5", "0", "-2.25", "1e21", "1e-7"}).Draw(t, "dd"), true
 		case ty.Prim == "bool":
-			return sp("true")
+			return rapid.SampledFrom([]string{"true", "false"}).Draw(t, "db"), true
 		case ty.Prim == "string":
-			return sp(rapid.SampledFrom([]string{`"d"`, `""`, `"a\"b"`}).Draw(t, "ds"))
+			return rapid.SampledFrom([]string{`"d"`, `""`, `"a\"b"`, `"é"`, `"a\\b\n"`, `"(x:'y')"`}).Draw(t, "ds"), true
 		case ty.Prim == "bytes":
-			return sp(`"xy"`)
+			if depth == 0 {
+				return rapid.SampledFrom([]string{`"xy"`, `""`, `"\u0000\u00ff"`, `"a\"b"`}).Draw(t, "dby"), true
+			}
+			return rapid.SampledFrom([]string{`"xy"`, `""`}).Draw(t, "dby"), true
 		case ty.Array != nil:
-			return sp("[]")
+			n := rapid.IntRange(0, 2).Draw(t, "dan")
+			items := []string{}
+			for i := 0; i < n; i++ {
+				x, ok := lit(*ty.Array, depth+1)
+				if !ok {
+					return "[]", true
+				}
+				items = append(items, x)
+			}
+			return "[" + strings.Join(items, ",") + "]", true
 		case ty.Map != nil:
-			return sp("{}")
+			n := rapid.IntRange(0, 2).Draw(t, "dmn")
+			items := []string{}
+			for i := 0; i < n; i++ {
+				x, ok := lit(*ty.Map, depth+1)
+				if !ok {
+					return "{}", true
+				}
+				items = append(items, fmt.Sprintf("%q:%s", []string{"k", "a b"}[i], x))
+			}
+			return "{" + strings.Join(items, ",") + "}", true
 		}
 		if ty.Ref != nil {
-			switch kindOf[*ty.Ref] {
+			pl := planOf[*ty.Ref]
+			switch pl.kind {
 			case "enum":
-				return sp(`"S0"`)
+				return `"S0"`, true
+			case "fixed":
+				b := strings.Repeat("a", pl.size)
+				if depth == 0 && rapid.Bool().Draw(t, "dfxhi") {
+					b = `\u00ff` + b[1:]
+				}
+				return `"` + b + `"`, true
+			case "typeref":
+				return lit(P(pl.prim), depth)
 			}
+		}
+		return "", false
+	}
+	defaultFor := func(ty Type) *string {
+		if x, ok := lit(ty, 0); ok {
+			return &x
 		}
 		return nil
 	}
@@ -218,9 +274,9 @@ func RandomManifest(t *rapid.T, root string, o ManifestOpts) *Schema {
 				nm.Symbols = append(nm.Symbols, rapid.SampledFrom([]string{"lower", "_X", "$Y", "type", "unknown"}).Draw(t, "sym"))
 			}
 		case "fixed":
-			nm.Size = rapid.IntRange(1, 16).Draw(t, "size")
+			nm.Size = p.size
 		case "typeref":
-			nm.Prim = rapid.SampledFrom(Prims).Draw(t, "trprim")
+			nm.Prim = p.prim
 		case "union":
 			nmem := rapid.IntRange(1, 4).Draw(t, "nmem")
 			nm.HasNull = rapid.Bool().Draw(t, "hasnull")
